@@ -345,6 +345,11 @@ def _fd_cases(ctx):
             for keep in (list(range(nbits)) + [-1] if nbits > 1 else [-1]):
                 for copy in (True, False):
                     cases.append((mask, True, True, (mask + keep) % 2 == 0, copy, None, f'dataset-empty:{variant}:{keep}'))
+    # other spellings of the option: numpy booleans, 1 / 0 (truthiness is what the code tests)
+    for mask in (1, 2, 4):
+        for copy in (True, False):
+            for spell in ('np', 'int'):
+                cases.append((mask, True, True, mask == 2, copy, None, f'dataset-spell:{spell}'))
     for copy in (True, False):
         cases.append((1, True, True, False, copy, None, 'concept'))
         cases.append((4, True, True, True, copy, None, 'concept'))
@@ -415,7 +420,15 @@ def _from_dataset(ctx, reqs, pending, only=None):
         is_ds = isinstance(inp, Dataset)
         before = sorted(_ds_pairs(inp)) if is_ds else None
         cls_before = type(inp)
-        st, res = _try(CodedConcept.from_dataset, inp, copy=copy)
+        copy_arg = copy
+        if kind == 'dataset-spell:np':
+            copy_arg = np.True_ if copy else np.False_
+        elif kind == 'dataset-spell:int':
+            copy_arg = 1 if copy else 0
+        if kind.startswith('dataset-spell') and copy:
+            st, res = _try(CodedConcept.from_dataset, inp, copy_arg)        # positionally
+        else:
+            st, res = _try(CodedConcept.from_dataset, inp, copy=copy_arg)
         n_codes = bin(mask).count('1')
         want_ok = is_ds and n_codes == 1 and has_m and has_s
         ctx.case(sample=case if (want_ok and mask == 2 and copy) else None,
